@@ -36,20 +36,11 @@ def lname(n):
 
 
 class Tr:
-<<<<<<< HEAD
-<<<<<<< HEAD
-    def __init__(self, consts=None, funcs=None, int_names=(), target_map=None):
+    def __init__(self, consts=None, funcs=None, int_names=(), target_map=None, matmul=None, mat3=False):
         self.consts = consts or {}      # python dotted name (or unparsed subscript, e.g. "self.orbit[5]") -> lean text
         self.target_map = target_map or {}  # unparsed subscript assignment target (e.g. "new[5]") -> python-level name
-=======
-    def __init__(self, consts=None, funcs=None, int_names=(), matmul=None):
         self.matmul = matmul            # lean function standing for numpy's `@` (None: `@` is untranslatable)
-=======
-    def __init__(self, consts=None, funcs=None, int_names=(), mat3=False):
         self.mat3 = mat3                # 3x3 np.array literals become `M3.mk …`, `@` becomes `M3.mul` (C02)
->>>>>>> wk-C02
-        self.consts = consts or {}      # python dotted name -> lean text
->>>>>>> wk-C11
         self.funcs = dict(FUNCS)
         self.funcs.update(funcs or {})
         self.int_names = set(int_names)  # names that are Nat-typed (exponents etc.)
@@ -124,14 +115,11 @@ class Tr:
                     return f"({self.matmul} {a} {b})"
                 if isinstance(e.op, ast.Mod):
                     return f"(fmod {a} {b})"
-<<<<<<< HEAD
                 if isinstance(e.op, ast.FloorDiv):
                     # integer code (C09 window arithmetic); the caller's namespace supplies `fdiv`
                     return f"(fdiv {a} {b})"
-=======
                 if isinstance(e.op, ast.MatMult) and self.mat3:
                     return f"(M3.mul {a} {b})"
->>>>>>> wk-C02
                 raise Untranslatable(f"operator {type(e.op).__name__}")
             return f"({a} {op} {b})"
         if isinstance(e, ast.Call):
@@ -148,19 +136,15 @@ class Tr:
                     return f"({self.expr(e.args[0])} * (180 : R) / pi)"
                 return f"({f} {args})"
             if d in ("np.array", "numpy.array", "np.asarray"):
-<<<<<<< HEAD
-                return self.expr(e.args[0])
-            if d in ("np.isclose", "numpy.isclose") and len(e.args) == 2 and not e.keywords:
-                # numpy default tolerances: |a - b| <= atol + rtol * |b|, atol = 1e-8, rtol = 1e-5
-                a, b = self.expr(e.args[0]), self.expr(e.args[1])
-                return f"(absR ({a} - {b}) ≤ (1.0e-8 : R) + (1.0e-5 : R) * absR {b})"
-=======
                 a0 = e.args[0]
                 if self.mat3 and isinstance(a0, (ast.List, ast.Tuple)) and len(a0.elts) == 3 and all(
                         isinstance(r, (ast.List, ast.Tuple)) and len(r.elts) == 3 for r in a0.elts):
                     return "(M3.mk " + " ".join(self.expr(x) for r in a0.elts for x in r.elts) + ")"
                 return self.expr(a0)
->>>>>>> wk-C02
+            if d in ("np.isclose", "numpy.isclose") and len(e.args) == 2 and not e.keywords:
+                # numpy default tolerances: |a - b| <= atol + rtol * |b|, atol = 1e-8, rtol = 1e-5
+                a, b = self.expr(e.args[0]), self.expr(e.args[1])
+                return f"(absR ({a} - {b}) ≤ (1.0e-8 : R) + (1.0e-5 : R) * absR {b})"
             raise Untranslatable(f"call {d}")
         if isinstance(e, (ast.List, ast.Tuple)):
             return "[" + ", ".join(self.expr(x) for x in e.elts) + "]"
@@ -321,11 +305,7 @@ def find_function(tree, qualname):
     return node
 
 
-<<<<<<< HEAD
-def translate_slice(path, qualname, inputs, outputs, lean_name, result_expr=None, consts=None, funcs=None, stop_before=None, target_map=None):
-=======
-def translate_slice(path, qualname, inputs, outputs, lean_name, result_expr=None, consts=None, funcs=None, stop_before=None, mat3=False):
->>>>>>> wk-C02
+def translate_slice(path, qualname, inputs, outputs, lean_name, result_expr=None, consts=None, funcs=None, stop_before=None, target_map=None, mat3=False):
     """def <lean_name> (inputs : R) := let …; result   — result defaults to the tuple/list of outputs"""
     tree = ast.parse(open(path).read())
     fn = find_function(tree, qualname)
@@ -333,13 +313,8 @@ def translate_slice(path, qualname, inputs, outputs, lean_name, result_expr=None
     if stop_before is not None:
         cut = next((i for i, s in enumerate(stmts) if stop_before(s)), len(stmts))
         stmts = stmts[:cut]
-<<<<<<< HEAD
-    tr = Tr(consts=consts, funcs=funcs, target_map=target_map)
+    tr = Tr(consts=consts, funcs=funcs, target_map=target_map, mat3=mat3)
     wanted = needed_names(stmts, outputs, inputs, tr) - set(inputs)
-=======
-    tr = Tr(consts=consts, funcs=funcs, mat3=mat3)
-    wanted = needed_names(stmts, outputs, inputs) - set(inputs)
->>>>>>> wk-C02
     res = result_expr or ("(" + ", ".join(lname(o) for o in outputs) + ")" if len(outputs) > 1 else lname(outputs[0]))
     body = tr.block(stmts, res, wanted)
     args = " ".join(lname(i) for i in inputs)
@@ -534,15 +509,10 @@ def instantiate(lean_root, name, body, src, subdir="Generated", extra_imports=()
     `extra_imports`: modules of the same subdir; `imports`: dotted names below BeyondVerif (each gets the F / R suffix)"""
     from harness.core import write_if_changed
     changed = []
-<<<<<<< HEAD
     # an import name containing a dot (e.g. "Model.Vec3") is taken relative to BeyondVerif, otherwise to <subdir>
-    full = [m if "." in m else f"{subdir}.{m}" for m in extra_imports]
+    full = [m if "." in m else f"{subdir}.{m}" for m in extra_imports] + list(imports)
     impF = "".join(f"import BeyondVerif.{m}F\n" for m in full)
     impR = "".join(f"import BeyondVerif.{m}R\n" for m in full)
-=======
-    impF = "".join(f"import BeyondVerif.{subdir}.{m}F\n" for m in extra_imports) + "".join(f"import BeyondVerif.{m}F\n" for m in imports)
-    impR = "".join(f"import BeyondVerif.{subdir}.{m}R\n" for m in extra_imports) + "".join(f"import BeyondVerif.{m}R\n" for m in imports)
->>>>>>> wk-C02
     f = HEADER_F.format(src=src).replace("import BeyondVerif.NumFloat\n", "import BeyondVerif.NumFloat\n" + impF) + body + "\nend BeyondVerif.F\n"
     r = HEADER_R.format(src=src).replace("import BeyondVerif.NumReal\n", "import BeyondVerif.NumReal\n" + impR) + body + "\nend BeyondVerif.R\n"
     if write_if_changed(os.path.join(lean_root, "BeyondVerif", subdir, name + "F.lean"), f):
